@@ -1,6 +1,7 @@
 package props
 
 import (
+	"fmt"
 	"go/ast"
 	"go/constant"
 	"go/token"
@@ -16,7 +17,7 @@ import (
 func init() {
 	register(&Spec{ID: "C09", Title: "Passwords never cross the wire in clear when encryption is negotiated", Run: runC09,
 		Meta: core.Meta{
-			Explanation: "Absence-of-flow, decided by taint analysis over SSA (E-TAINT). R09.1: sources are all loads of dsn.Info.Password and tds.LoginConfigRemoteServer.Password in package tds; the secret may flow only (A) into rsaEncrypt's password parameter, where it may only be appended after the nonce and handed to rsa.EncryptOAEP as the message; (B) into writeString at the single call site of LoginConfig.pack that is dominated by config.Encrypt differing from all four TDS_MSG_SEC_ENCRYPT* constants (the plain-mode password slot); (C) into the Password field of the synthesised first remote server. Every other use — an argument of fmt/log, a buffer or BytesChannel write, a store into another field or variable, a return to a caller that uses it otherwise — is a violation reported with the flow path. Control: at least one flow of each accepted kind must be found. R09.2: the OAEP call uses sha1.New(), crypto/rand.Reader, an empty label and append(nonce, secret...) (nonce first); rsaEncrypt is called with the account password, each remote password and the session key. R09.3: generateSymmetricKey returns the 32-byte buffer filled by crypto/rand.Read under the length check. R09.4 (E-CONST): the message ids for which pack leaves the password slot empty are exactly those for which Login does not take the plain flow. R09.5: every field object retained in the parameter slices built inside Login's remote-server loop is created in the same iteration (an object shared across iterations would make all entries carry the last ciphertext).",
+			Explanation: "Absence-of-flow, decided by taint analysis over SSA (E-TAINT). R09.1: sources are all loads of dsn.Info.Password and tds.LoginConfigRemoteServer.Password in package tds; the secret may flow only (A) into rsaEncrypt's password parameter, where it may only be appended after the nonce and handed to rsa.EncryptOAEP as the message; (B) into writeString at the single call site of LoginConfig.pack that is dominated by config.Encrypt differing from all four TDS_MSG_SEC_ENCRYPT* constants (the plain-mode password slot); (C) into the Password field of the synthesised first remote server. Every other use — an argument of fmt/log, a buffer or BytesChannel write, a store into another field or variable, a return to a caller that uses it otherwise — is a violation reported with the flow path. Control: at least one flow of each accepted kind must be found. R09.2: the OAEP call uses sha1.New(), crypto/rand.Reader, an empty label and append(nonce, secret...) (nonce first); rsaEncrypt is called with the account password, each remote password and the session key. R09.3: generateSymmetricKey returns the 32-byte buffer filled by crypto/rand.Read under the length check. R09.4 (E-CONST): the message ids for which pack leaves the password slot empty are exactly those for which Login does not take the plain flow. R09.6: in package tds no value whose type holds Info.Password or LoginConfigRemoteServer.Password (directly or through pointers, slices, maps, nested structs) is converted to an interface — the only way into fmt, log, errors or reflection, where %v of the struct would print the password. R09.5: every field object retained in the parameter slices built inside Login's remote-server loop is created in the same iteration (an object shared across iterations would make all entries carry the last ciphertext).",
 			NotDecided:  "Cryptographic strength, what the standard library does with the bytes, and the length of the password (len() is not treated as a leak) are not decided.",
 			Assumptions: []string{"rsa.EncryptOAEP does not expose its message", "package tds is the only code that writes login bytes"},
 		}})
@@ -29,6 +30,7 @@ func runC09(r *core.Run) {
 	r.Rule("R09.3", "session key: 32 fresh random bytes", 1, false)
 	r.Rule("R09.4", "pack and Login agree on which message ids mean 'encrypted'", 1, false)
 	r.Rule("R09.5", "objects retained across a loop in Login are created per iteration", 2, false)
+	r.Rule("R09.6", "no value of a type that holds a password field is converted to an interface in package tds", 1, false)
 
 	srcA := p.Field("dsn", "Info", "Password")
 	srcB := p.Field("tds", "LoginConfigRemoteServer", "Password")
@@ -99,6 +101,61 @@ func runC09(r *core.Run) {
 	c09SymKey(r)
 	c09Switches(r)
 	c09LoopFresh(r)
+	c09Containers(r, []*types.Var{srcA, srcB}, te.funcs)
+}
+
+// holdsSecret: values of type t carry one of the secret fields (directly, or through pointers, slices, arrays, maps
+// and nested structs).
+func holdsSecret(t types.Type, secrets map[*types.Var]bool, seen map[types.Type]bool, d int) bool {
+	if d > 6 || seen[t] {
+		return false
+	}
+	seen[t] = true
+	switch x := t.Underlying().(type) {
+	case *types.Struct:
+		for i := 0; i < x.NumFields(); i++ {
+			if secrets[x.Field(i)] || holdsSecret(x.Field(i).Type(), secrets, seen, d+1) {
+				return true
+			}
+		}
+	case *types.Pointer:
+		return holdsSecret(x.Elem(), secrets, seen, d+1)
+	case *types.Slice:
+		return holdsSecret(x.Elem(), secrets, seen, d+1)
+	case *types.Array:
+		return holdsSecret(x.Elem(), secrets, seen, d+1)
+	case *types.Map:
+		return holdsSecret(x.Elem(), secrets, seen, d+1) || holdsSecret(x.Key(), secrets, seen, d+1)
+	}
+	return false
+}
+
+// c09Containers: R09.6. E-TAINT follows the password string itself; a struct that HOLDS it leaks it just as well when
+// it is rendered as a whole (%v of a LoginConfigRemoteServer prints {name password}). In package tds no value whose
+// type holds a secret field is converted to an interface (the only way into fmt, log, errors and reflection).
+func c09Containers(r *core.Run, secrets []*types.Var, funcs []*ssa.Function) {
+	sec := map[*types.Var]bool{}
+	for _, s := range secrets {
+		sec[s] = true
+	}
+	n := 0
+	for _, fn := range funcs {
+		for _, b := range fn.Blocks {
+			for _, in := range b.Instrs {
+				mi, ok := in.(*ssa.MakeInterface)
+				if !ok {
+					continue
+				}
+				n++
+				if !holdsSecret(mi.X.Type(), sec, map[types.Type]bool{}, 0) {
+					continue
+				}
+				r.Bad("R09.6", core.FuncName(fn)+": "+core.TypeStr(mi.X.Type())+" converted to an interface", mi.Pos(),
+					"a value of type "+core.TypeStr(mi.X.Type())+", which holds a password field, is converted to an interface ("+core.Expr(mi)+"): formatted with %v/%+v/%#v or logged, it renders the clear-text password into an error text or log line")
+			}
+		}
+	}
+	r.Check(n > 0, "R09.6", "no struct holding a password is rendered as a whole", token.NoPos, fmt.Sprintf("%d interface conversions in package tds inspected, none of a type that holds a secret field", n), "no interface conversions seen: the rule does not see the code")
 }
 
 func c09OAEP(r *core.Run, rsaEnc *ssa.Function, srcA, srcB *types.Var) {
